@@ -19,7 +19,8 @@ ENGINE = 'E2 small-scope enumeration against a key-multiplicity reference'
 RULE = ('every rectangular table with n rows (0..max, header-only and single-row included) of each family '
         '(key column x value column {1,2}, with and without an id column; two key columns x value column) x key '
         'forms {None, field, index, compound, list} x header-field namings (text; and, for key=None / index keys, '
-        'int names that look like indices, bool, None, float, duplicate names, names equal after str()) x call variants {default, presorted=True on reference-sorted '
+        'int names that look like indices, bool, None, float, duplicate names, names equal after str()) x sequence-valued '
+        'key cells (list vs tuple with equal items = different keys; single, compound, whole-row) x call variants {default, presorted=True on reference-sorted '
         'input; buffersize 1/2 and cache=False on the small family} x operations {duplicates, unique, '
         'duplicates+unique partition, distinct, distinct(count=), conflicts (include/exclude forms; missing markers '
         'identical to the cells (1), equal but of another type (1.0, True vs int 1) and equal but a different object '
@@ -85,6 +86,17 @@ def _families(tier, seed):
     for i, h in enumerate(HEADER_NAMINGS_3):
         fams['hn3_%d' % i] = dict(hdr=h, syms=[(k, k2, v) for k in K3[:2] for k2 in K3[:2] for v in V],
                                   maxn=3, keys=[None, (0, 1), 2, 0], variants=base, cargs=('plain',))
+    # sequence-valued key cells: a list and a tuple with equal items are NOT equal in Python, so they are different
+    # keys (petl's sort order ties them, the run detection must not).  Single key, compound key and whole rows.
+    # isunique is left out: it needs hashable values (lists raise TypeError), which its documentation does not cover.
+    i1, i2 = K4[1], K4[2]
+    SQ = [(i1, i2), [i1, i2], (i1,), [i1]]
+    fams['seq'] = dict(hdr=('k', 'v'), syms=[(k, v) for k in SQ for v in V], maxn=4 if thorough else 3,
+                       keys=['k', ('k', 'v'), None, 0], variants=base, cargs=('plain',),
+                       ops=('duplicates', 'unique', 'partition', 'distinct', 'distinct-count', 'conflicts'))
+    fams['seq2'] = dict(hdr=('k', 'k2', 'v'), syms=[(k, k2, 1) for k in SQ[:2] + [i1] for k2 in SQ[:2] + [None]],
+                        maxn=3, keys=[('k', 'k2'), ('k2', 'k'), 'k', None], variants=base, cargs=('plain',),
+                        ops=('duplicates', 'unique', 'partition', 'distinct', 'distinct-count', 'conflicts'))
     # strategy variants on a smaller family (the sort below the operators is C05's subject)
     fams['kvb'] = dict(hdr=('k', 'v'), syms=[(k, v) for k in K3 for v in V], maxn=4 if thorough else 3,
                        keys=[None, 'k'], variants=('bs1', 'bs2', 'bs1-nocache'), cargs=('plain',))
@@ -296,6 +308,8 @@ def check_table(acc, famname, fam, rows):
                 where = 'header-only table' if n == 0 else \
                     'key=%s%s' % (kform, '' if variant in ('default', 'presorted') else ', buffersize given')
                 group = '%s | %s | %s' % (label, sig, where)
+                if op in _TIE_OPS and sort_tie_splits_equal_keys(hdr, use, key):
+                    group += TIE_SUFFIX
                 case = {'kind': 'dedup', 'op': op, 'header': hdr, 'rows': use, 'key': key, 'variant': variant,
                         'cargs': cname}
                 acc.violation(group, case, expd, obs,
@@ -403,4 +417,35 @@ def _cls_distinct_count_header_only(group, case, params):
     return case.get('kind') == 'dedup' and case.get('op') == 'distinct-count' and len(case.get('rows')) == 0
 
 
-CLASSIFIERS = {'distinct_count_header_only': _cls_distinct_count_header_only}
+TIE_SUFFIX = ' | equal keys separated by a sort-tied unequal key (list vs tuple)'
+_TIE_OPS = ('duplicates', 'unique', 'partition', 'distinct', 'distinct-count')
+
+
+def sort_tie_splits_equal_keys(hdr, rows, key):
+    """Exact trigger of the recorded defect C10-sort-tie-splits-equal-keys: in stable key order (petl's
+    ordering) two rows with equal (==) keys are separated by a row whose key is tied with theirs in that
+    ordering without being equal (a list between two equal tuples, ...), so the adjacent-row run detection of
+    duplicates/unique/distinct never sees the pair.  Adjacent list/tuple keys alone do NOT satisfy it."""
+    from .. import refmodel as ref
+    hdr, rows = tuple(hdr), [tuple(r) for r in rows]
+    kf = dr.keyfn(hdr, key)
+    ks = [kf(r) for r in sr.presort(hdr, rows, key, False)]
+    for i in range(len(ks)):
+        for j in range(i + 1, len(ks)):
+            if ks[j] == ks[i] or ref.cmp(ks[i], ks[j]) != 0:
+                continue
+            for m in range(j + 1, len(ks)):
+                if ks[i] == ks[m]:
+                    return True
+    return False
+
+
+def _cls_sort_tie_splits_equal_keys(group, case, params):
+    """True only for cases whose input satisfies sort_tie_splits_equal_keys (and whose group carries the suffix)."""
+    if case.get('kind') != 'dedup' or case.get('op') not in _TIE_OPS or not group.endswith(TIE_SUFFIX):
+        return False
+    return sort_tie_splits_equal_keys(case['header'], case['rows'], case['key'])
+
+
+CLASSIFIERS = {'distinct_count_header_only': _cls_distinct_count_header_only,
+               'sort_tie_splits_equal_keys': _cls_sort_tie_splits_equal_keys}
